@@ -131,17 +131,22 @@ class CustomOperatorMul(OperatorMul):
 class CustomOperatorTruediv(OperatorTruediv):
     symbol: str = ' / '
 
+def _number(quantity):
+    """ Plain number behind a dimensionless argument (10 % is 0.1); any other unit is refused
+    """
+    return Quantity(quantity.magnitude, quantity.baseunits).to(None)
+
 class CustomOperatorExp(OperatorExp):
     def operate_args(self, tokens):
-        tokens.put_left(Quantity(np.e)**self.args[0].value())        
+        tokens.put_left(Quantity(np.e)**_number(self.args[0]).value())        
             
 class CustomOperatorLog(OperatorLog):
     def operate_args(self, tokens):
-        tokens.put_left(np.log(self.args[0]))     
+        tokens.put_left(np.log(_number(self.args[0])))     
 
 class CustomOperatorLog10(OperatorLog10):
     def operate_args(self, tokens):
-        tokens.put_left(np.log10(self.args[0]))        
+        tokens.put_left(np.log10(_number(self.args[0])))        
 
 class CustomOperatorSqrt(OperatorSqrt):
     def operate_args(self, tokens):
@@ -161,9 +166,9 @@ class CustomOperatorTan(OperatorTan):
 
 class CustomOperatorLogb(OperatorLogb):
     def operate_args(self, tokens):
-        tokens.put_left(np.log(self.args[0])/np.log(self.args[1]))
+        tokens.put_left(np.log(_number(self.args[0]))/np.log(_number(self.args[1])))
 
 class CustomOperatorPowb(OperatorPowb):
     def operate_args(self, tokens):
-        tokens.put_left(np.power(self.args[0],self.args[1].value()))     
+        tokens.put_left(np.power(self.args[0],_number(self.args[1]).value()))     
 
